@@ -55,6 +55,9 @@ type Analyzer struct {
 	indexed    bool
 	// MaxDepth bounds summary recursion.
 	MaxDepth int
+	relInts map[*ssa.Function][]bool
+	// cut is set whenever a summary request was answered with "unknown" because of the bound or a cycle
+	cut bool
 	// Stats
 	Contexts int
 }
@@ -299,7 +302,12 @@ type fctx struct {
 	fn    *ssa.Function
 	binds map[*ssa.Parameter]Bind // int bindings of parameters in this context
 	// closure support: the MakeClosure that created fn (nil for declared functions)
-	mk *ssa.MakeClosure
+	mk     *ssa.MakeClosure
+	parent *fctx
+	lbMemo map[ssa.Value][2]int
+	fieldCanon  map[string]ssa.Value
+	fieldStored map[string]bool
+	budget int
 }
 
 func isSliceT(t types.Type) bool {
@@ -349,7 +357,23 @@ func (fc *fctx) IntConst(v ssa.Value) (int, bool) {
 // constant, a bound parameter, a phi of such (minimum), or those plus/minus
 // constants.
 func (fc *fctx) IntLB(v ssa.Value, depth int) (int, bool) {
-	return fc.intLB(v, depth, map[*ssa.Phi]bool{})
+	if fc.lbMemo == nil {
+		fc.lbMemo = map[ssa.Value][2]int{}
+	}
+	if m, ok := fc.lbMemo[v]; ok {
+		return m[0], m[1] == 1
+	}
+	fc.budget = 3000
+	c, ok := fc.intLB(v, depth, map[*ssa.Phi]bool{})
+	if fc.budget <= 0 {
+		c, ok = 0, false
+	}
+	if ok {
+		fc.lbMemo[v] = [2]int{c, 1}
+	} else {
+		fc.lbMemo[v] = [2]int{0, 0}
+	}
+	return c, ok
 }
 
 // intLB: a phi that is being visited contributes the neutral element Inf, which
@@ -359,7 +383,8 @@ func (fc *fctx) intLB(v ssa.Value, depth int, visiting map[*ssa.Phi]bool) (int, 
 	if c, ok := fc.IntConst(v); ok {
 		return c, true
 	}
-	if depth > 8 {
+	fc.budget--
+	if depth > 8 || fc.budget <= 0 {
 		return 0, false
 	}
 	switch x := v.(type) {
@@ -428,7 +453,34 @@ func (fc *fctx) intLB(v ssa.Value, depth int, visiting map[*ssa.Phi]bool) (int, 
 // from closures), provided that the store is in the entry block of the
 // allocating function.
 func singleStore(al *ssa.Alloc) ssa.Value {
-	var stored ssa.Value
+	if st := singleStoreInstr(al); st != nil {
+		return st.Val
+	}
+	return nil
+}
+
+// storeBefore reports whether st is executed before instruction in on every
+// path reaching in (block dominance, or earlier in the same block).
+func storeBefore(st *ssa.Store, in ssa.Instruction) bool {
+	if st == nil || in == nil || st.Parent() != in.Parent() {
+		return false
+	}
+	if st.Block() == in.Block() {
+		for _, x := range st.Block().Instrs {
+			if x == ssa.Instruction(st) {
+				return true
+			}
+			if x == in {
+				return false
+			}
+		}
+		return false
+	}
+	return st.Block().Dominates(in.Block())
+}
+
+func singleStoreInstr(al *ssa.Alloc) *ssa.Store {
+	var stored *ssa.Store
 	n := 0
 	var visit func(v ssa.Value) bool
 	visit = func(v ssa.Value) bool {
@@ -441,8 +493,8 @@ func singleStore(al *ssa.Alloc) ssa.Value {
 			case *ssa.Store:
 				if x.Addr == v {
 					n++
-					stored = x.Val
-					if x.Block() != al.Block().Parent().Blocks[0] || x.Parent() != al.Parent() {
+					stored = x
+					if x.Parent() != al.Parent() {
 						return false
 					}
 				} else {
@@ -504,8 +556,8 @@ func (fc *fctx) ResolveSlice(v ssa.Value) Ref {
 		case *ssa.UnOp:
 			if x.Op == token.MUL {
 				if al, ok := x.X.(*ssa.Alloc); ok {
-					if sv := singleStore(al); sv != nil {
-						v = sv
+					if st := singleStoreInstr(al); st != nil && storeBefore(st, x) {
+						v = st.Val
 						continue
 					}
 				}
@@ -513,6 +565,11 @@ func (fc *fctx) ResolveSlice(v ssa.Value) Ref {
 					if sv := fc.freeVarValue(fv); sv != nil {
 						v = sv
 						continue
+					}
+				}
+				if _, ok := x.X.(*ssa.FieldAddr); ok {
+					if cv := fc.canonicalFieldLoad(x); cv != nil {
+						return Ref{cv, off}
 					}
 				}
 			}
@@ -524,6 +581,88 @@ func (fc *fctx) ResolveSlice(v ssa.Value) Ref {
 	return Ref{v, off}
 }
 
+// pathKey renders a pure access path (parameter/free variable, field
+// selections, loads of such) as a string; "" if v is anything else.
+func pathKey(v ssa.Value, depth int) string {
+	if depth > 8 {
+		return ""
+	}
+	switch x := v.(type) {
+	case *ssa.Parameter:
+		return fmt.Sprintf("P%p", x)
+	case *ssa.FreeVar:
+		return fmt.Sprintf("F%p", x)
+	case *ssa.FieldAddr:
+		b := pathKey(x.X, depth+1)
+		if b == "" {
+			return ""
+		}
+		return fmt.Sprintf("%s.%d", b, x.Field)
+	case *ssa.UnOp:
+		if x.Op != token.MUL {
+			return ""
+		}
+		b := pathKey(x.X, depth+1)
+		if b == "" {
+			return ""
+		}
+		return "*" + b
+	}
+	return ""
+}
+
+// canonicalFieldLoad maps every load of the same field path (no CSE in go/ssa:
+// `if 0 < len(f.Args) { f.Args[0] }` loads f.Args twice) to one representative,
+// provided the function and its closures never assign that field. Calls made
+// between the guard and the use are assumed not to shrink the field.
+func (fc *fctx) canonicalFieldLoad(u *ssa.UnOp) ssa.Value {
+	if fc.fieldCanon == nil {
+		fc.fieldCanon = map[string]ssa.Value{}
+		fc.fieldStored = map[string]bool{}
+		var scan func(f *ssa.Function)
+		scan = func(f *ssa.Function) {
+			for _, b := range f.Blocks {
+				for _, in := range b.Instrs {
+					switch x := in.(type) {
+					case *ssa.Store:
+						if fa, ok := x.Addr.(*ssa.FieldAddr); ok {
+							fc.fieldStored[fieldID(fa)] = true
+						}
+					case *ssa.UnOp:
+						if x.Op == token.MUL && f == fc.fn {
+							if _, ok := x.X.(*ssa.FieldAddr); ok {
+								if k := pathKey(x.X, 0); k != "" {
+									if _, has := fc.fieldCanon[k]; !has {
+										fc.fieldCanon[k] = x
+									}
+								}
+							}
+						}
+					}
+				}
+			}
+			for _, af := range f.AnonFuncs {
+				scan(af)
+			}
+		}
+		scan(fc.fn)
+	}
+	fa := u.X.(*ssa.FieldAddr)
+	if fc.fieldStored[fieldID(fa)] {
+		return nil
+	}
+	k := pathKey(fa, 0)
+	if k == "" {
+		return nil
+	}
+	return fc.fieldCanon[k]
+}
+
+func fieldID(fa *ssa.FieldAddr) string {
+	t := fa.X.Type().Underlying().(*types.Pointer).Elem()
+	return fmt.Sprintf("%s#%d", t.String(), fa.Field)
+}
+
 // freeVarValue resolves a captured variable to the single value ever stored
 // in it (a value of the enclosing function), if there is exactly one.
 func (fc *fctx) freeVarValue(fv *ssa.FreeVar) ssa.Value {
@@ -533,7 +672,13 @@ func (fc *fctx) freeVarValue(fv *ssa.FreeVar) ssa.Value {
 	for i, f := range fc.fn.FreeVars {
 		if f == fv && i < len(fc.mk.Bindings) {
 			if al, ok := fc.mk.Bindings[i].(*ssa.Alloc); ok {
-				return singleStore(al)
+				if st := singleStoreInstr(al); st != nil && storeBefore(st, fc.mk) {
+					return st.Val
+				}
+			}
+			if pfv, ok := fc.mk.Bindings[i].(*ssa.FreeVar); ok && fc.parent != nil {
+				// captured through an enclosing closure
+				return fc.parent.freeVarValue(pfv)
 			}
 		}
 	}
@@ -578,8 +723,8 @@ func (fc *fctx) ResolveInt(v ssa.Value) (r Ref, isLen bool, ok bool) {
 		case *ssa.UnOp:
 			if x.Op == token.MUL {
 				if al, oka := x.X.(*ssa.Alloc); oka {
-					if sv := singleStore(al); sv != nil {
-						v = sv
+					if st := singleStoreInstr(al); st != nil && storeBefore(st, x) {
+						v = st.Val
 						continue
 					}
 				}
@@ -603,6 +748,9 @@ type Result struct {
 	in  map[*ssa.BasicBlock]State // nil = unreachable
 	an  *Analyzer
 	dep int
+	// truncated: a summary was skipped because of the recursion bound or a cycle;
+	// the result is sound but must not be reused at a shallower depth
+	truncated bool
 }
 
 func ctxKey(f *ssa.Function, binds map[*ssa.Parameter]Bind, entry []int) string {
@@ -723,15 +871,18 @@ func (r *Result) LBSlice(st State, v ssa.Value) int {
 // Analyze runs the dataflow for f with the given constant bindings and entry
 // bounds of its parameters (nil = use caller guarantees).
 func (a *Analyzer) Analyze(f *ssa.Function, binds map[*ssa.Parameter]Bind, entry []int, depth int) *Result {
+	entryCut := false
 	if entry == nil {
+		a.cut = false
 		entry = a.EntryBounds(f, depth)
+		entryCut = a.cut
 	}
 	key := ctxKey(f, binds, entry)
-	if r, ok := a.results[key]; ok {
+	if r, ok := a.results[key]; ok && (!r.truncated || depth >= r.dep) {
 		return r
 	}
 	a.Contexts++
-	r := &Result{fc: &fctx{fn: f, binds: binds}, in: map[*ssa.BasicBlock]State{}, an: a, dep: depth}
+	r := &Result{fc: &fctx{fn: f, binds: binds}, in: map[*ssa.BasicBlock]State{}, an: a, dep: depth, truncated: entryCut}
 	a.results[key] = r
 	if len(f.Blocks) == 0 {
 		return r
@@ -741,6 +892,7 @@ func (a *Analyzer) Analyze(f *ssa.Function, binds map[*ssa.Parameter]Bind, entry
 		if mk := findMakeClosure(f); mk != nil {
 			r.fc.mk = mk
 			pres := a.Analyze(f.Parent(), nil, nil, depth+1)
+			r.fc.parent = pres.fc
 			pres.Visit(func(in ssa.Instruction, st State) {
 				if in == ssa.Instruction(mk) {
 					// facts about immutable SSA values of the parent that held when the closure was made hold whenever it runs
@@ -777,7 +929,8 @@ func (a *Analyzer) Analyze(f *ssa.Function, binds map[*ssa.Parameter]Bind, entry
 			if ifi, ok := b.Instrs[len(b.Instrs)-1].(*ssa.If); ok {
 				r.applyCond(es, ifi.Cond, si == 0)
 			}
-			// phis of the successor
+			// phis of the successor, evaluated in the state of this edge (after the branch condition)
+			out := es.clone()
 			pi := predIndex(s, b)
 			for _, in := range s.Instrs {
 				phi, ok := in.(*ssa.Phi)
@@ -947,6 +1100,9 @@ func (r *Result) transferBlock(b *ssa.BasicBlock, st State, v Visitor) (State, b
 				if k, ok := r.fc.IntConst(x.Index); ok && k >= 0 {
 					ref := r.fc.ResolveSlice(x.X)
 					r.raise(st, ref.Root, k+1+ref.Off)
+				} else if ir, isLen, ok := r.fc.ResolveInt(x.Index); ok && isLen && ir.Off > 0 {
+					// x[len(y)-c] succeeded: len(y) >= c
+					r.raise(st, ir.Root, ir.Off)
 				}
 			}
 		case *ssa.Slice:
@@ -981,10 +1137,11 @@ func (r *Result) transferCall(st State, c *ssa.Call) bool {
 	if r.an.NoReturn(g) {
 		return false
 	}
-	if g.Blocks == nil || r.dep >= r.an.MaxDepth {
+	if g.Blocks == nil || !core.InModule(pkgOf(g)) {
 		return true
 	}
-	if !core.InModule(pkgOf(g)) {
+	if r.dep >= r.an.MaxDepth {
+		r.truncated = true
 		return true
 	}
 	// callee summary: only worth computing when a slice or len() is passed
@@ -1011,8 +1168,9 @@ func (r *Result) transferCall(st State, c *ssa.Call) bool {
 		return true
 	}
 	binds := map[*ssa.Parameter]Bind{}
+	rel := r.an.relevantInts(g)
 	for i, arg := range c.Call.Args {
-		if i < len(g.Params) && isIntT(g.Params[i].Type()) {
+		if i < len(g.Params) && isIntT(g.Params[i].Type()) && rel[i] {
 			if k, ok := r.fc.IntConst(arg); ok {
 				binds[g.Params[i]] = Bind{k, true}
 			} else if k, ok := r.fc.IntLB(arg, 0); ok {
@@ -1020,7 +1178,11 @@ func (r *Result) transferCall(st State, c *ssa.Call) bool {
 			}
 		}
 	}
+	r.an.cut = false
 	ens := r.an.Ensures(g, binds, r.dep+1)
+	if r.an.cut {
+		r.truncated = true
+	}
 	if rets := r.an.returns[ctxKey(g, binds, make([]int, len(g.Params)))]; len(rets) == 1 && rets[0] > 0 && isSliceT(c.Type()) {
 		st[c] = rets[0]
 	} else if len(rets) > 1 {
@@ -1061,6 +1223,104 @@ func pkgOf(f *ssa.Function) *types.Package {
 	return nil
 }
 
+// relevantInts reports which int parameters of g can influence a length
+// fact: they are compared (possibly after +/- constants) with a len()-derived
+// value, or handed to such a parameter of another module function. Only those
+// are bound in contexts; binding e.g. a recursion depth counter would create
+// unboundedly many contexts.
+func (a *Analyzer) relevantInts(g *ssa.Function) []bool {
+	if a.relInts == nil {
+		a.relInts = map[*ssa.Function][]bool{}
+	}
+	if r, ok := a.relInts[g]; ok {
+		return r
+	}
+	out := make([]bool, len(g.Params))
+	a.relInts[g] = out // cycle cut: not relevant while in progress
+	fc := &fctx{fn: g}
+	derives := func(v ssa.Value) int {
+		for i := 0; i < 10; i++ {
+			switch x := v.(type) {
+			case *ssa.Parameter:
+				for pi, p := range g.Params {
+					if p == x {
+						return pi
+					}
+				}
+				return -1
+			case *ssa.BinOp:
+				if _, ok := fc.IntConst(x.Y); ok {
+					v = x.X
+					continue
+				}
+				if _, ok := fc.IntConst(x.X); ok {
+					v = x.Y
+					continue
+				}
+				return -1
+			case *ssa.Phi:
+				// min := 2; if c { min-- }: any edge deriving from a param makes it relevant
+				for _, e := range x.Edges {
+					if p, ok := e.(*ssa.Parameter); ok {
+						for pi, q := range g.Params {
+							if q == p {
+								return pi
+							}
+						}
+					}
+				}
+				return -1
+			case *ssa.Convert:
+				v = x.X
+				continue
+			default:
+				return -1
+			}
+		}
+		return -1
+	}
+	for _, b := range g.Blocks {
+		for _, in := range b.Instrs {
+			switch x := in.(type) {
+			case *ssa.BinOp:
+				switch x.Op {
+				case token.LSS, token.LEQ, token.GTR, token.GEQ, token.EQL, token.NEQ:
+					if !isIntT(x.X.Type()) {
+						continue
+					}
+					_, lx, _ := fc.ResolveInt(x.X)
+					_, ly, _ := fc.ResolveInt(x.Y)
+					px, py := derives(x.X), derives(x.Y)
+					if px >= 0 && isIntT(g.Params[px].Type()) && (ly || py >= 0) {
+						out[px] = true
+					}
+					if py >= 0 && isIntT(g.Params[py].Type()) && (lx || px >= 0) {
+						out[py] = true
+					}
+				}
+			case *ssa.Call:
+				h := x.Call.StaticCallee()
+				if h == nil || h.Blocks == nil || !core.InModule(pkgOf(h)) {
+					continue
+				}
+				hr := a.relevantInts(h)
+				for ai, arg := range x.Call.Args {
+					if ai < len(hr) && hr[ai] {
+						if pi := derives(arg); pi >= 0 && isIntT(g.Params[pi].Type()) {
+							out[pi] = true
+						}
+					}
+				}
+			case *ssa.MakeSlice:
+				if pi := derives(x.Len); pi >= 0 && isIntT(g.Params[pi].Type()) {
+					out[pi] = true
+				}
+			}
+		}
+	}
+	return out
+}
+
 // Ensures returns, per parameter of g, the lower bound (of len for slices, of
 // the value for ints) that holds on every normal return of g in the context of
 // the given constant bindings, for any entry state.
@@ -1071,6 +1331,7 @@ func (a *Analyzer) Ensures(g *ssa.Function, binds map[*ssa.Parameter]Bind, depth
 		return e
 	}
 	if a.ensuresIP[key] || depth > a.MaxDepth {
+		a.cut = true
 		return zero
 	}
 	a.ensuresIP[key] = true
@@ -1129,7 +1390,11 @@ func (a *Analyzer) Ensures(g *ssa.Function, binds map[*ssa.Parameter]Bind, depth
 			out[i] = 0
 		}
 	}
-	a.ensures[key] = out
+	if !res.truncated {
+		a.ensures[key] = out
+	} else {
+		delete(a.returns, key)
+	}
 	return out
 }
 
@@ -1140,10 +1405,12 @@ func (a *Analyzer) EntryBounds(f *ssa.Function, depth int) []int {
 		return e
 	}
 	zero := make([]int, len(f.Params))
-	if a.entryIP[f] || depth > a.MaxDepth || a.Dynamic(f) {
-		if !a.entryIP[f] {
-			a.entry[f] = zero
-		}
+	if a.Dynamic(f) {
+		a.entry[f] = zero
+		return zero
+	}
+	if a.entryIP[f] || depth > a.MaxDepth {
+		a.cut = true
 		return zero
 	}
 	callers := a.StaticCallers(f)
@@ -1162,6 +1429,7 @@ func (a *Analyzer) EntryBounds(f *ssa.Function, depth int) []int {
 		return zero
 	}
 	a.entryIP[f] = true
+	trunc := false
 	out := make([]int, len(f.Params))
 	for i := range out {
 		out[i] = Inf
@@ -1169,6 +1437,9 @@ func (a *Analyzer) EntryBounds(f *ssa.Function, depth int) []int {
 	for _, cs := range callers {
 		caller := cs.Parent()
 		res := a.Analyze(caller, nil, nil, depth+1)
+		if res.truncated {
+			trunc = true
+		}
 		found := false
 		res.Visit(func(in ssa.Instruction, st State) {
 			if in != ssa.Instruction(cs) {
@@ -1196,7 +1467,9 @@ func (a *Analyzer) EntryBounds(f *ssa.Function, depth int) []int {
 		}
 	}
 	delete(a.entryIP, f)
-	a.entry[f] = out
+	if !trunc {
+		a.entry[f] = out
+	}
 	return out
 }
 
